@@ -174,6 +174,22 @@ func H_C03_grammar(n int, entry int) {
 		out, ferr := DefaultFormatter(nil, v, f)
 		vAssert("format-reproduces-input", ferr == nil && string(out) == string(in))
 		vAssert("parsed-value-is-valid", v.Valid() == nil)
+		// every other output path gives the same text: String/MarshalText/%s the plain form, StringTag/%t the tag form
+		plain, _ := DefaultFormatter(nil, v, 0)
+		tagged, _ := DefaultFormatter(nil, v, FormatTag)
+		vAssert("tag-form-is-v-plus-plain", string(tagged) == "v"+string(plain))
+		mt, merr := v.MarshalText()
+		vAssert("marshaltext-is-plain", merr == nil && string(mt) == string(plain))
+		vAssert("string-is-plain", v.String() == string(plain))
+		vAssert("stringtag-is-tagged", v.StringTag() == string(tagged))
+		var ss, st vState
+		v.Format(&ss, 's')
+		v.Format(&st, 't')
+		vAssert("verb-s-is-plain", string(ss.buf) == string(plain))
+		vAssert("verb-t-is-tagged", string(st.buf) == string(tagged))
+		u := Ver{Major: vU64("prev.major"), PreRelease: "old", Build: "old"} // whatever the variable held before
+		uerr := u.UnmarshalText(plain)
+		vAssert("unmarshaltext-of-plain", uerr == nil && u == v)
 	} else {
 		_, typed := err.(*ParseError[[]byte])
 		vAssert("typed-zero", typed && v == Ver{})
@@ -275,3 +291,10 @@ func refBuildValid(s string) bool {
 	}
 	return ok && l > 0
 }
+
+type vState struct{ buf []byte }
+
+func (s *vState) Write(b []byte) (int, error) { s.buf = append(s.buf, b...); return len(b), nil }
+func (s *vState) Width() (int, bool)          { return 0, false }
+func (s *vState) Precision() (int, bool)      { return 0, false }
+func (s *vState) Flag(c int) bool             { return false }
